@@ -20,7 +20,7 @@ Mechanisms in the code meant to make it hold:
 
 YOUR TASK: produce ONE realistic change to the library source (under {wt}/src/aioslsk only — do not edit tests) that BREAKS this property while the code still imports/compiles and the ENTIRE existing test suite still passes. The change must be the kind of regression a maintainer could plausibly introduce (a refactor gone subtly wrong, a dropped guard, a swapped argument, a changed constant, a reordered await, a narrowed except, a missing cleanup, ...), small (roughly 1-15 changed lines), and it must need something specific to manifest: a particular interleaving, a crash or fault at a particular point, a multi-step sequence of operations, an unusual input, or two cooperating sites that each look fine alone — NOT something ordinary use would expose at once. {hint}
 
-Also write a demonstration: a standalone pytest file {wt}/demo_{p['id']}.py (or small script) that exercises the REAL library code and FAILS with your change applied and PASSES on the original code (to check both ways use `git diff -- src > /tmp/my.patch; git checkout -- src; ...; git apply /tmp/my.patch` — do NOT use `git stash`: the stash is shared between worktrees). Keep it deterministic and fast (< 20 s).
+Also write a demonstration: a standalone pytest file {wt}/demo_{p['id']}.py (or small script) that exercises the REAL library code and FAILS with your change applied and PASSES on the original code (to check both ways use `git diff -- src > {wt}/my.patch; git checkout -- src; ...; git apply {wt}/my.patch` — do NOT use `git stash`: the stash is shared between worktrees). Keep it deterministic and fast (< 20 s).
 
 How to run things (the library is imported from PYTHONPATH, so always set it):
   cd {wt} && PYTHONPATH={wt}/src /venv/bin/python -m pytest -q -p no:cacheprovider demo_{p['id']}.py
